@@ -121,6 +121,23 @@ def set_typed_attrs(ix_or_tree):
     return names, amb
 
 
+def _keyed_stores_only(loop):
+    """every statement of the loop body is `<container>[<loop variable>] = <expression over the loop variable and loop-invariant names>`"""
+    v = loop.target.id
+    if loop.orelse:
+        return False
+    assigned = {v}
+    for st in loop.body:
+        if not (isinstance(st, ast.Assign) and len(st.targets) == 1 and isinstance(st.targets[0], ast.Subscript) and isinstance(st.targets[0].slice, ast.Name)
+                and st.targets[0].slice.id == v):
+            return False
+        # the value must not read the container being written (no accumulation across iterations)
+        cont = ast.unparse(st.targets[0].value)
+        if any(ast.unparse(x) == cont for x in ast.walk(st.value) if isinstance(x, (ast.Attribute, ast.Name))):
+            return False
+    return bool(loop.body)
+
+
 def scan_module_setiter(tree, rel, set_attrs):
     set_attrs, ambiguous = set_attrs
     out = []
@@ -166,6 +183,8 @@ def scan_module_setiter(tree, rel, set_attrs):
                 continue
             if isinstance(n, ast.comprehension) and isinstance(gp, ast.Call) and isinstance(gp.func, ast.Name) and gp.func.id in ORDER_FREE_CONSUMERS:
                 continue
+            if isinstance(n, ast.For) and isinstance(n.target, ast.Name) and _keyed_stores_only(n):
+                continue      # d[x] = f(x) for every x of the set: the iterations are independent, their order is invisible
             out.append(('setiter:%s' % ast.unparse(it)[:40], it.lineno, 'iteration over the set `%s`: its order depends on the hash seed'
                         % ast.unparse(it)[:40], fname(n)))
         if isinstance(n, ast.Call) and isinstance(n.func, ast.Name) and n.func.id in ('list', 'tuple') and n.args and is_set_expr(n.args[0]):
